@@ -172,6 +172,7 @@ static bool wexp_run(const wexp_cfg *cf, const int *seq, int n, size_t cap, wexp
     bool failed = false;            /* a call has returned false / an error is expected to be latched */
     size_t stored = 0;              /* reference: bytes that must be in the destination */
     bool ref_overflow = false;
+    size_t first_fail_end = 0;
     size_t expect_counter = 0;
     bool counter_defined = true;    /* false once an op without encoding was issued */
     uint8_t *shadow = (uint8_t *) vf_xmalloc(cap ? cap : 1);
@@ -185,7 +186,7 @@ static bool wexp_run(const wexp_cfg *cf, const int *seq, int n, size_t cap, wexp
         if (!noenc) {
             for (int k = 0; k < np; k++) {
                 if (!ref_overflow && !failed && pc[k].off + pc[k].len <= cap) stored = pc[k].off + pc[k].len;
-                else if (pc[k].off + pc[k].len > cap) ref_overflow = true;
+                else if (pc[k].off + pc[k].len > cap) { if (!ref_overflow && !failed) first_fail_end = pc[k].off + pc[k].len; ref_overflow = true; }
                 if (ref_overflow) failed = true;
             }
             expect_counter = ref.len;
@@ -240,8 +241,16 @@ static bool wexp_run(const wexp_cfg *cf, const int *seq, int n, size_t cap, wexp
         }
         if (cf->c04 && !noenc && counter_defined) {
             /* destination = the encoding up to the first piece that did not fit, 0xA5 beyond */
-            bool same = stored <= cap && memcmp(dptr, ref.bytes, stored) == 0;
-            for (size_t k = stored; same && k < cap; k++) if (dptr[k] != 0xA5) same = false;
+            /* the destination must be: reference bytes [0,k) then untouched 0xA5, for a k between "everything before the
+             * first piece that did not fit" (our piece list is the coarsest legal one) and the end of that piece exclusive:
+             * a writer that stores a token in finer pieces may legitimately have stored the head of the failing token */
+            size_t match = 0, limit = ref.len < cap ? ref.len : cap;
+            while (match < limit && dptr[match] == ref.bytes[match]) match++;
+            size_t tail = cap;          /* smallest j with dptr[j..cap) all 0xA5 */
+            while (tail > 0 && dptr[tail - 1] == 0xA5) tail--;
+            size_t fail_end = ref.len;  /* end of the first piece that did not fit, if any */
+            if (ref_overflow) { fail_end = first_fail_end; }
+            bool same = stored <= cap && match >= stored && tail <= match && (tail <= stored || tail < fail_end);
             if (!same) {
                 snprintf(mm->why, sizeof mm->why, "destination after call %d (%s) is not 'reference prefix of %zu bytes then untouched' (capacity %zu)", i, wo_name[op],
                          stored, cap);
